@@ -757,3 +757,71 @@ func checkC18OuterWord(c *Ctx, n int) {
 		})
 	}
 }
+
+// checkC18Shadowed: a bare dash below a command that declares again a LONG name (or a SHORT name) of an outer
+// level.  Every option the parser accepts there is offered under a spelling that reaches it: the outer option
+// whose long name is shadowed under its short name, the inner option whose short name the outer one shares
+// under that short name (D28), everything else under its long name; nothing twice.
+func checkC18Shadowed(c *Ctx, n int) {
+	r := c.Rng
+	for i := 0; i < n; i++ {
+		shadowLong := r.Intn(2) == 0 // the command declares --verbose again (the outer one keeps -v for itself) ...
+		shadowShort := !shadowLong || r.Intn(2) == 0 // ... and / or declares a short-only -f while the outer --host has -f
+		sub := &StructDesc{Fields: []FieldDesc{{Name: "Quiet", Exported: true, Kind: "v", Ty: "bool", Tag: `long:"quiet"`}}}
+		if shadowLong {
+			sub.Fields = append(sub.Fields, FieldDesc{Name: "SubVerbose", Exported: true, Kind: "v", Ty: "bool", Tag: `long:"verbose"`})
+		}
+		if shadowShort {
+			sub.Fields = append(sub.Fields, FieldDesc{Name: "Files", Exported: true, Kind: "v", Ty: "Lstr", Tag: `short:"f"`})
+		}
+		root := &StructDesc{Fields: []FieldDesc{
+			{Name: "Verbose", Exported: true, Kind: "v", Ty: "bool", Tag: `long:"verbose" short:"v"`},
+			{Name: "Host", Exported: true, Kind: "v", Ty: "str", Tag: `long:"host" short:"f"`},
+			{Name: "Only", Exported: true, Kind: "v", Ty: "bool", Tag: `short:"o"`},
+			{Name: "Sub", Exported: true, Kind: "s", Tag: `command:"sub"`, Sub: sub}}}
+		cs := &Case{Name: "app", NsDelim: ".", EnvNsDelim: "_"}
+		cs.Build = []BuildOp{{Kind: "addgroup", Target: 1, Short: "Application Options", Struct: root}}
+		below := r.Intn(4) != 0
+		args := []string{"-"}
+		if below {
+			args = []string{"sub", "-"}
+			if r.Intn(3) == 0 {
+				args = []string{"-o", "sub", "--quiet", "-"}
+			}
+		}
+		cs.Ops = []Op{{Kind: "complete", Args: args}}
+		cs.Description = describeOps(cs)
+		c.RunCases([]*Case{cs}, func(cr *CaseResult) {
+			c.Class(fmt.Sprintf("c18/shadowed: long=%v short=%v below-the-command=%v", shadowLong, shadowShort, below))
+			c.Distinct(cs.Description)
+			compL := firstLine(cr.Impl, "COMP ")
+			if compL == "" && firstLine(cr.Impl, "COMP") == "" {
+				return
+			}
+			ws := strings.Fields(compL)
+			var items []string
+			for j := 2; j < len(ws); j += 2 {
+				s, _ := unhx(ws[j])
+				items = append(items, s)
+			}
+			// one spelling per option the parser accepts at that point
+			want := []string{"--host", "--verbose", "-o"}
+			if below {
+				want = []string{"--host", "--quiet", "--verbose", "-o"}
+				if shadowShort {
+					want = append(want, "-f") // (the command's Files; --host still reaches Host)
+				}
+				if shadowLong {
+					want = append(want, "-v") // (--verbose is the command's now; -v still reaches the outer one)
+				}
+			}
+			sort.Strings(want)
+			ok := fmt.Sprint(items) == fmt.Sprint(want)
+			in := map[string]interface{}{"case": cs.Description, "args": args}
+			if !ok {
+				in["case_file"] = c.saveCase(cr)
+			}
+			c.Check("a-bare-dash-offers-every-option-the-parser-accepts-there-once", ok, "C18:shadowed-names", in, fmt.Sprintf("%q", items), fmt.Sprintf("%q", want))
+		})
+	}
+}
